@@ -204,7 +204,7 @@ func TestC02Exhaustive(t *testing.T) {
 					return
 				}
 				c := cfgs[i]
-				if d := c02CheckIntents(c, intents, rec, fmt.Sprintf("%+v", c)); d != nil {
+				if d := safely(func() *Disc { return c02CheckIntents(c, intents, rec, fmt.Sprintf("%+v", c)) }); d != nil {
 					mu.Lock()
 					if first == nil {
 						first, fcfg = d, c
